@@ -11,6 +11,9 @@ fn profiles_env(default: &[&'static str]) -> Vec<&'static str> {
         Ok(s) if !s.is_empty() => {
             let mut v = Vec::new();
             for name in s.split(',') {
+                if name == "tokens" {
+                    continue;
+                }
                 match mc::profiles::ALL.iter().find(|n| **n == name) {
                     Some(n) => v.push(*n),
                     None => {
